@@ -2,5 +2,6 @@
 package checks
 
 import (
+	_ "verif/checks/c01"
 	_ "verif/checks/c08"
 )
